@@ -5,10 +5,25 @@ import os
 from ..lib import cbuild, tlc
 from ..lib.common import workdir, rmworkdir, seed, log, MachineryError
 from ..lib.report import Report
-from ..drivers import rundrv
+from ..drivers import rundrv, replaylib
 
 PID = 'C10'
 EMPTY = {'ramdiff': -1}
+FIELDS = ('regs', 'iff', 'im', 'border', 'tpos', 'o7ffd', 'offfd', 'ay', 'banks', 'memptr')
+
+
+def _case(rec, sp):
+    """ResumeCases record of one split point (sp = None: the run in one go already failed)."""
+    if sp is None:
+        c = {'err': rec['err'], 'fmt': rec['fmt'], 'cmio': 0, 'ramdiff': -1}
+        for f in FIELDS:
+            c['a_' + f] = c['b_' + f] = 0
+        return c
+    c = {'err': sp['err'], 'fmt': rec['fmt'], 'cmio': 1 if '-c' in rec['opts'] else 0, 'ramdiff': sp.get('ramdiff', -1)}
+    for f in FIELDS:
+        c['a_' + f] = sp.get('a_' + f, 0)
+        c['b_' + f] = sp.get('b_' + f, 0)
+    return c
 
 
 def run(tier):
@@ -24,20 +39,12 @@ def run(tier):
         parts = pool.map(rundrv.legs, [(sd * 71 + k, per, wd) for k in range(16)])
     recs = [x for p in parts for x in p]
     cases, owners = [], []
-    fields = ('regs', 'iff', 'im', 'border', 'tpos', 'o7ffd', 'offfd', 'ay', 'banks', 'memptr')
     for rec in recs:
         if rec['err']:
-            c = {'err': rec['err'], 'fmt': rec['fmt'], 'cmio': 0, 'ramdiff': -1}
-            for f in fields:
-                c['a_' + f] = c['b_' + f] = 0
-            cases.append(c); owners.append((rec, None))
+            cases.append(_case(rec, None)); owners.append((rec, None))
             continue
         for sp in rec['splits']:
-            c = {'err': sp['err'], 'fmt': rec['fmt'], 'cmio': 1 if '-c' in rec['opts'] else 0, 'ramdiff': sp.get('ramdiff', -1)}
-            for f in fields:
-                c['a_' + f] = sp.get('a_' + f, 0)
-                c['b_' + f] = sp.get('b_' + f, 0)
-            cases.append(c); owners.append((rec, sp))
+            cases.append(_case(rec, sp)); owners.append((rec, sp))
     log('C10: %d runs, %d split points' % (len(recs), len(cases)))
     rs, fails = tlc.judge('run', 'ResumeCases', 'ResumeCases.cfg', cases, casefile=os.path.join(wd, 'resume.json'))
     rep.add_tlc(rs, 'ResumeCases', traces=len(cases))
@@ -61,3 +68,30 @@ def run(tier):
                 '{plain,-c} x {C,--python}; distinct_nontrivial = distinct (program class, options, length, split, start T)')
     rmworkdir('c10')
     return rep.finish()
+
+
+def replay(path):
+    """./check C10 --replay replays/C10-n.json : the recorded start snapshot through trace.py of the current tree again - the whole
+    run in one go, and split at the recorded point with a snapshot in the recorded format in between - judged by ResumeCases."""
+    d, rp = replaylib.load(path, PID)
+    rec, sp = rp.get('rec'), rp.get('split')
+    if not isinstance(rec, dict):
+        raise MachineryError('unusable replay file %s: no run record in it (a violation of the SaveResume model is deterministic: rerun ./check C10)' % path)
+    if 'startfile' not in rec:
+        raise MachineryError('unusable replay file %s: written before start snapshots were recorded (%s is gone)' % (path, rec.get('start')))
+    replaylib.need(rec, path, 'opts', 'fmt', 'total', 'm128')
+    wd = workdir('replay-c10')
+    new, nsp = rundrv.replay_case(wd, rec, sp['n1'] if sp else None)
+    if new['err']:
+        nsp = None
+    elif nsp is None:
+        # the one-go run failed in the recorded run but works now
+        rmworkdir('replay-c10')
+        return replaylib.verdict(PID, path, [])
+    rs, fails = tlc.judge('run', 'ResumeCases', 'ResumeCases.cfg', [_case(new, nsp)], casefile=os.path.join(wd, 'resume.json'))
+    found = ['resume:%s:%s: trace.py %s (start T=%s): %s instructions at once vs %s + snapshot(%s) + rest; %s'
+             % (rec['fmt'], clause, ' '.join(rec['opts']), rec.get('t0'), rec['total'], nsp and nsp['n1'], rec['fmt'],
+                new['err'] or nsp['err'] or {k: (nsp['a_' + k], nsp['b_' + k]) for k in FIELDS if k not in ('banks', 'ay') and nsp['a_' + k] != nsp['b_' + k]})
+             for _, clause in fails]
+    rmworkdir('replay-c10')
+    return replaylib.verdict(PID, path, found)
